@@ -224,6 +224,18 @@ fn corpus_all(env: &Env, st: &mut Stats) -> Vec<Failure> {
     fails
 }
 
+pub fn check_sentence_pub(sub: &str, text: &str, docs: &[(String, String)], st: &mut Stats) -> Result<bool, Failure> {
+    check_sentence(sub, text, docs, st)
+}
+
+fn fuzz_run(env: &Env, st: &mut Stats) -> Vec<Failure> {
+    crate::fuzzing::campaign("syntax_diff", env, st, 120)
+}
+
+fn fuzz_replay(case: &Value, env: &Env) -> CaseResult {
+    crate::fuzzing::replay("syntax_diff", case, env)
+}
+
 fn replay_text(case: &Value, _env: &Env) -> CaseResult {
     let mut st = Stats::new();
     let docs = vec![(String::new(), case["document"].as_str().unwrap_or("null").to_string())];
@@ -241,11 +253,13 @@ pub fn property() -> Property {
             "the binding-power table quoted in the statement, applied by precedence climbing, defines the parse; the reference parser implements it independently of parser.rs".into(),
             "shapes are compared modulo associativity of Subexpr ((a.b).c and a.(b.c) are the same pipeline): the statement fixes grouping, not the nesting of a chain of sub-expressions".into(),
         ],
+        minimise: None,
         subs: vec![
             Sub::Custom(CustomSub { name: "corpus", run: corpus_all, replay: replay_text }),
-            Sub::Bytes(BytesSub { name: "tree-shape", f: tree_shape, max_len: 1500, quick: Budget { threads: 8, cases: 3000 }, thorough: Budget { threads: 16, cases: 100_000 } }),
-            Sub::Bytes(BytesSub { name: "unparen", f: unparen, max_len: 1500, quick: Budget { threads: 8, cases: 4000 }, thorough: Budget { threads: 16, cases: 150_000 } }),
-            Sub::Bytes(BytesSub { name: "mutant-sentences", f: mutant_sentences, max_len: 1200, quick: Budget { threads: 8, cases: 5000 }, thorough: Budget { threads: 16, cases: 200_000 } }),
+            Sub::Bytes(BytesSub { name: "tree-shape", f: tree_shape, max_len: 1500, quick: Budget { threads: 8, cases: 3000 }, thorough: Budget { threads: 16, cases: 100_000 }, keep_unreproducible: false }),
+            Sub::Bytes(BytesSub { name: "unparen", f: unparen, max_len: 1500, quick: Budget { threads: 8, cases: 4000 }, thorough: Budget { threads: 16, cases: 150_000 }, keep_unreproducible: false }),
+            Sub::Custom(CustomSub { name: "fuzz-syntax_diff", run: fuzz_run, replay: fuzz_replay }),
+            Sub::Bytes(BytesSub { name: "mutant-sentences", f: mutant_sentences, max_len: 1200, quick: Budget { threads: 8, cases: 5000 }, thorough: Budget { threads: 16, cases: 200_000 }, keep_unreproducible: false }),
         ],
     }
 }
